@@ -131,11 +131,16 @@ func.func @f(%A : {ta}, %B : {tb}, %C : {tc}, %D : {td}) {{
 """
 
 
-def xdma_add_src(n):
-    t = f"memref<{n}xi32>"
+def xdma_add_src(n, out_layout=None):
+    shp = "x".join(str(v) for v in (n if isinstance(n, tuple) else (n,)))
+    rank = len(n) if isinstance(n, tuple) else 1
+    t = f"memref<{shp}xi32>"
+    tc = f"memref<{shp}xi32, {out_layout}>" if out_layout else t
+    dims = ", ".join(f"d{i}" for i in range(rank))
+    amap = f"affine_map<({dims}) -> ({dims})>"
     return f"""
-func.func @f(%A : {t}, %B : {t}, %C : {t}) {{
-  "dart.operation"(%A, %B, %C) <{{patterns = [affine_map<(d0) -> (d0)>, affine_map<(d0) -> (d0)>, affine_map<(d0) -> (d0)>], accelerator = "snax_xdma", operandSegmentSizes = array<i32: 2, 1>}}> ({{
+func.func @f(%A : {t}, %B : {t}, %C : {tc}) {{
+  "dart.operation"(%A, %B, %C) <{{patterns = [{amap}, {amap}, {amap}], accelerator = "snax_xdma", operandSegmentSizes = array<i32: 2, 1>}}> ({{
   ^bb0(%s0 : !dart.stream<i32>, %s1 : !dart.stream<i32>, %s2 : !dart.stream<i32>):
     %g = "dart.generic"(%s0, %s1) <{{library_call = "snax_xdma"}}> ({{
     ^bb1(%a : i32, %b : i32, %acc : i32):
@@ -143,7 +148,7 @@ func.func @f(%A : {t}, %B : {t}, %C : {t}) {{
       dart.yield %m : i32
     }}) : (!dart.stream<i32>, !dart.stream<i32>) -> !dart.stream<i32>
     dart.yield %g : !dart.stream<i32>
-  }}) : ({t}, {t}, {t}) -> ()
+  }}) : ({t}, {t}, {tc}) -> ()
   func.return
 }}
 """
@@ -370,7 +375,7 @@ def case_pipeline(case):
         _, (M, N, K), i8out, lays, setl = case
         src, acc, pre = gemmx_src(M, N, K, i8out, lays), "snax_gemmx", ["dart-scheduler"]
     elif kind == "xdma_add":
-        src, acc, pre, setl = xdma_add_src(case[1]), "snax_xdma", ["dart-scheduler"], None
+        src, acc, pre, setl = xdma_add_src(case[1], case[2] if len(case) > 2 else None), "snax_xdma", ["dart-scheduler"], None
     elif kind in ("gemm4", "gemm4b"):
         _, ta, tb, tc, td = case
         src, acc, pre, setl = gemm4_src(ta, tb, tc, td), "snax_gemmx", ["dart-scheduler"], None
@@ -396,7 +401,8 @@ def case_pipeline(case):
         if s.startswith("layout_resolution") and lay.get("offset"):
             s += f"|layout_with_nonzero_offset:{lay.get('kind')}"
         if (s.startswith("stream:") or s.startswith("programmed:")) and kind == "xdma_add":
-            s += "|xdma_add_extension"
+            # the reader (operands 0 and 1 share one stream) is the recorded finding; the writer (operand 2) is not
+            s += "|xdma_add_extension:" + ("writer" if info.get("operand") == 2 else "reader")
         if s.startswith("stream:") and kind == "gemm4b" and info.get("operand") == 2:
             s += "|bias_vector_broadcast_over_rows"
         if s.startswith("stream:") and info.get("inner_contiguous") is False:
@@ -455,12 +461,16 @@ def run(chk):
     # element-wise add on the xDMA (add extension of the reader)
     for n in (128, 64) + (() if quick else (16, 256)):
         cases.append(("xdma_add", n))
+    # result laid out differently from the inputs (padded rows)
+    cases.append(("xdma_add", (24, 32), "strided<[64, 1]>"))
+    cases.append(("xdma_add", (8, 16), "strided<[32, 1], offset: 0>"))
+    cases.append(("xdma_add", (24, 32)))
     # the same buffer as both inputs with different access maps (Gram matrix X * X^T)
     for M, K in ((16, 16), (8, 24), (24, 8)) + (() if quick else ((32, 16), (16, 64))):
         for i8out in (False, True):
             cases.append(("gemmx", (M, M, K), i8out, (None, "gram", None), None))
     # seeded family: random multiples of the 8x8x8 tile, random operand layouts (row/column major, padded rows, offsets)
-    for _ in range(30 if quick else 300):
+    for _ in range(30 if quick else 2500):
         M, N, K = (8 * rnd.randint(1, 8) for _ in range(3))
         la = rnd.choice([None, None, f"strided<[{K}, 1]>", f"strided<[{K + 8}, 1]>", f"strided<[1, {M}]>", f"strided<[{K}, 1], offset: {8 * rnd.randint(1, 4)}>"])
         lb = rnd.choice([None, f"strided<[1, {K}]>", f"strided<[1, {K + 16}]>", f"strided<[{N}, 1]>"])
